@@ -166,7 +166,99 @@ def bad_status_execute(case, stats):
     stats.note(case, True, classes=["bad_status"])
 
 
+# ------------------------------------------------------------------------------------------ atheris (thorough)
+import collections
+
+COUNTERS = collections.Counter()
+
+
+class _Reader:
+    """Decodes fuzz bytes into structured arguments (a tiny FuzzedDataProvider that also works on replay)."""
+
+    def __init__(self, data):
+        self.d = bytes(data)
+        self.p = 0
+
+    def byte(self):
+        if self.p >= len(self.d):
+            return 0
+        b = self.d[self.p]
+        self.p += 1
+        return b
+
+    def blob(self, maxlen):
+        n = self.byte() % (maxlen + 1)
+        out = self.d[self.p : self.p + n]
+        self.p += n
+        return out
+
+    def rest(self):
+        out = self.d[self.p :]
+        self.p = len(self.d)
+        return out
+
+
+def fuzz_http(data: bytes):
+    """Mode 0: the bytes ARE the wire message (must parse or raise ValueError). Mode 1/2: the bytes are decoded into
+    request / response parts, serialised by the reference serialiser and must parse back to exactly those parts."""
+    from dissect.cobaltstrike import c2
+    from ..runner import Stats
+
+    r = _Reader(data)
+    mode = r.byte() % 3
+    if mode == 0:
+        wire = r.rest()
+        out = lib(c2.parse_raw_http, wire, allow=(ValueError,), what="parse_raw_http(raw fuzz bytes)")
+        COUNTERS["raw_rejected" if isinstance(out, Raised) else "raw_parsed"] += 1
+        return
+    tok = lambda b: bytes(TOKEN.encode()[c % len(TOKEN)] for c in b) or b"x"
+    nh = r.byte() % 5
+    hdrs = []
+    for i in range(nh):
+        k = tok(r.blob(6)) + str(i).encode()
+        v = r.blob(12).replace(b"\r", b"r").replace(b"\n", b"n")
+        hdrs.append((k, v))
+    if mode == 1:
+        method = tok(r.blob(5))
+        if method.upper().startswith(b"HTTP"):
+            method = b"X" + method
+        segs = [bytes(PATH_CHARS.encode()[c % len(PATH_CHARS)] for c in r.blob(6)) for _ in range(1 + r.byte() % 3)]
+        path = b"/" + b"/".join(segs)
+        if path.startswith(b"//"):
+            path = b"/a" + path[1:]
+        prm = []
+        for i in range(r.byte() % 4):
+            prm.append((r.blob(5) + str(i).encode(), r.blob(10) or b"v"))
+        flags = r.byte()
+        case = {"method": method, "path": path, "params": prm, "headers": hdrs, "body": r.rest(), "space_plus": bool(flags & 1), "lower_hex": bool(flags & 2), "version": b"HTTP/1.1"}
+        request_execute(case, Stats())
+        COUNTERS["request"] += 1
+    else:
+        status = 100 + (r.byte() * 256 + r.byte()) % 900
+        case = {"status": status, "reason": tok(r.blob(6)), "headers": hdrs, "body": r.rest(), "version": b"HTTP/1.1"}
+        response_execute(case, Stats())
+        COUNTERS["response"] += 1
+
+
+def fuzz_execute(case, stats):
+    fuzz_http(case["data"])
+    stats.note(case, len(case["data"]) > 4, classes=["fuzz_replay"])
+
+
+def fuzz_custom(tier, seed, shard, nshards, stats, rec):
+    if tier != "thorough":
+        return
+    from ..fuzz.run import campaign
+
+    seeds = []
+    if shard % 2 == 0:
+        seeds = [b"\x00GET /a?b=c HTTP/1.1\r\nHost: x\r\n\r\nbody", b"\x00HTTP/1.1 200 OK\r\nA: b\r\n\r\n", b"\x01\x02\x03abc\x02xy\x03GET\x01\x02ab\x01\x01k\x02vv\x00body", b"\x02\x01\x02ab\x03xyz\x00\xc8\x02OK..."]
+    campaign("harness.props.c16", "fuzz_http", seeds, runs=150000, seed=seed, stats=stats, max_len=512)
+    stats.note({"shard": shard, "seeded": bool(seeds)}, True, classes=["atheris_campaign_seeded" if seeds else "atheris_campaign_empty_corpus"])
+
+
 SUBS = [
+    Sub("atheris_parts_and_raw", fuzz_execute, custom=fuzz_custom, shards={"quick": 1, "thorough": 4}),
     Sub("requests", request_execute, strategy=request_strategy, examples={"quick": 6400, "thorough": 128000}),
     Sub("responses", response_execute, strategy=response_strategy, examples={"quick": 3200, "thorough": 64000}),
     Sub("malformed", malformed_execute, strategy=malformed_strategy, examples={"quick": 2400, "thorough": 48000}),
